@@ -158,7 +158,7 @@ Proof.
       as (k1 & l1 & its & st' & Hst1 & Hsh1 & Hdd1 & Hend).
     destruct Hend as [(A & _)|(_ & -> & Ho1 & Hs1)]; [congruence|].
     cbn [rest_src] in Hs1. rewrite <- !app_assoc in Hs1. cbn [app] in Hs1. rewrite <- ?app_assoc in Hs1.
-    destruct Hcmd as [Hcmd|[Hname Hcl]].
+    destruct Hcmd as [Hcmd|(sp & Hsp & Hname & Hcl)].
     + assert (Hs1' : span l1 [] ([123%N] ++ n ++ [125%N] ++ T' ++ rest_src r ++ tl)) by exact Hs1.
       destruct (lex_special_cmd uni_letter uni_digit letter_ascii digit_ascii letter_eof digit_eof inp l1 n o _ Hcmd Hs1')
         as (k2 & l2 & ld & c & rd & Hst2 & Hs2 & Ho2 & Hld & Hrd & Hc & Hla2 & Hv2 & Hdd2).
@@ -171,8 +171,8 @@ Proof.
       { rewrite Ho3, Ho2, Ho1, !rev_app_distr. cbn [rev app]. rewrite <- !app_assoc. reflexivity. }
       intros term. rewrite <- !app_assoc. eapply mt_tag; [exact Hsh1|apply ti_cmd; assumption|apply Hsh].
     + cbn [fst snd] in Hname, Hcl. subst n.
-      assert (Hs1' : span l1 [] ([123%N] ++ lit_name o ++ [125%N] ++ T' ++ rest_src r ++ tl)) by exact Hs1.
-      destruct (lex_literal_cmd uni_letter uni_digit letter_ascii digit_ascii letter_eof digit_eof inp l1 o _ Hs1' Hcl)
+      assert (Hs1' : span l1 [] ([123%N] ++ lit_name_sp sp o ++ [125%N] ++ T' ++ rest_src r ++ tl)) by exact Hs1.
+      destruct (lex_literal_cmd uni_letter uni_digit letter_ascii digit_ascii letter_eof digit_eof inp l1 sp o _ Hsp Hs1' Hcl)
         as (k2 & l2 & ld & kw & rd & tx & ld2 & ke & rd2 & Hst2 & Hs2 & Ho2 & A1 & A2 & A3 & A4 & A5 & A6 & A7 & A8 & Hla2 & Hv2 & Hdd2).
       assert (Hpw : pwof 0 l2 = false) by (unfold pwof; rewrite Hla2, Hv2; reflexivity).
       destruct (IH rp' T' pcs' l2 tl Hne Htl Hs2 Hdd2 ltac:(rewrite Hpw; exact Hok') ltac:(rewrite Hpw; exact Hpc') Hrest' Hrp')
